@@ -32,6 +32,9 @@ ENTRY = [
     "chmux::mux::ChMux::recv_task", "chmux::listener::Request::new", "chmux::receiver::Receiver::recv_any",
     "chmux::receiver::Receiver::recv_chunk", "chmux::mux::ChMux::handle_event", "chmux::listener::Listener::accept",
     "chmux::listener::Request::accept_from", "chmux::listener::Request::reject",
+    # sender-side arithmetic on quantities the peer controls (granted credit)
+    "chmux::credit::CreditUser::request", "chmux::credit::CreditUser::try_request",
+    "<chmux::credit::AssignedCredits as std::ops::Drop>::drop", "chmux::credit::AssignedCredits::take",
 ]
 CLASS_MACROS = {
     "tokio::select": "internal invariant of tokio::select! (branch bookkeeping; `all branches are disabled` cannot occur: "
@@ -260,6 +263,26 @@ def r08_3(ck, F):
                   "carries a UsedCredit", f"{adt}.credit is {f.get('credit')}", None)
 
 
+def r08_3b(ck, F):
+    ck.rule("R08.3b", "every frame queued to a port's unbounded queue costs at least one receive credit: the amount given to "
+            "ChannelCreditMonitor::use_credits is max(.., 1) or the frame is rejected when its size is zero",
+            "a peer sending empty PortData frames to a port whose receiver is idle: they cost nothing, never exceed the "
+            "credit limit and are buffered without bound", floor=2)
+    b = F.main_body(HANDLE_RECEIVED)
+    for k, (bb, t) in enumerate(sorted(b.calls("chmux::credit::ChannelCreditMonitor::use_credits"))):
+        e = b.expr(t["a"][1])
+        mx = [c for c in mir.calls_in(e, "std::cmp::Ord::max") if any(const_value(a) is not None and const_value(a) >= 1 for a in c[2])]
+        guarded = False
+        for s, tb, v in controlling_edges(b, bb):
+            ce = switch_expr(b, s)
+            if ce[0] == "call" and ce[1].endswith("::is_empty") and switch_meaning(b, s, v) is False:
+                guarded = True
+            if ce[0] == "bin" and ce[1] in ("Gt", "Ge", "Ne") and const_value(ce[3]) is not None and switch_meaning(b, s, v) is True:
+                guarded = True
+        ck.expect(bool(mx) or guarded, f"handle_received_msg#use_credits{k}-min-cost", "frame costs at least one credit",
+                  f"use_credits({mir.show(e)[:70]}) can be zero: such frames are queued for free", b.loc(bb))
+
+
 def r08_4(ck, F):
     ck.rule("R08.4", "the decoder is total: MultiplexMsg::read has an otherwise branch that returns an error, compares "
             "the magic, and from_slice maps decode errors to ChMuxError::Protocol",
@@ -303,7 +326,7 @@ def r08_5(ck, F):
 
 def run(ck, F):
     import c02
-    for r in (r08_1, r08_1b, r08_2, r08_3, r08_4, r08_5):
+    for r in (r08_1, r08_1b, r08_2, r08_3, r08_3b, r08_4, r08_5):
         ck.run_rule(r)
     # shared clauses: the buffering bound rests on the receive-side accounting and on the right limit being wired
     for r in (c02.r02_5, c02.r02_6, c02.r02_7):
